@@ -75,7 +75,7 @@ func init() {
 	register(&Prop{
 		ID:         "C20",
 		Title:      "Native-interpreter overrides are dispatched exactly and fall back safely",
-		Decided:    "(R1) registration and lookup agree: every access to the four registry maps of interpreter.Native builds its key as table + the same constant separator + the same normalising function applied to the expression, and in the two kind switches (AddMatcher / lookup) each ExpressionType constant selects the same map; all three matcher kinds are present in both and an unknown kind panics instead of registering; (R2) the normalising function is order-preserving: it reaches no sorting routine and no map iteration and only trims/collapses whitespace, so two different expressions never share a key unless they differ only in whitespace; (R3) Native.Update invokes the updater only on the found edge and the miss edge returns an error wrapping ErrUnsupportedFeature without touching the item; Native.Match returns the lookup error without calling anything; (R4) Table.interpreterMatch uses the native verdict iff its error is nil and otherwise lets the language interpreter decide, Table.interpreterUpdate uses the native interpreter iff UseNativeInterpreter, with no fallback; (R5) the table name, the expression text and the expression kind reach MatchInput/UpdateInput unchanged and correctly paired; (R6) CreateTable copies the three interpreter settings into the new table, ActivateNativeInterpreter and SetInterpreter update the client field and every existing table.",
+		Decided:    "(R1) registration and lookup agree: every access to the four registry maps of interpreter.Native builds its key as table + the same constant separator + the same normalising function applied to the expression, and in the two kind switches (AddMatcher / lookup) each ExpressionType constant selects the same map; all three matcher kinds are present in both and an unknown kind panics instead of registering; (R2) the normalising function is order-preserving: it reaches no sorting routine and no map iteration and only trims/collapses whitespace, so two different expressions never share a key unless they differ only in whitespace; (R3) Native.Update invokes the updater only on the found edge and the miss edge returns an error wrapping ErrUnsupportedFeature without touching the item; Native.Match returns the lookup error without calling anything; (R4) Table.interpreterMatch uses the native verdict iff its error is nil and otherwise lets the language interpreter decide, Table.interpreterUpdate uses the native interpreter iff UseNativeInterpreter, with no fallback; (R5) the table name, the expression text and the expression kind reach MatchInput/UpdateInput unchanged and correctly paired; (R6) CreateTable copies the three interpreter settings into the new table, ActivateNativeInterpreter and SetInterpreter update the client field and every existing table; (R7) the native interpreter has no state beyond its four registries; a memo added later must be rewritten by every registration.",
 		NotDecided: "which callback a given request reaches at run time – R1–R5 are the structural reasons it is the registered one; behaviour of user-supplied callbacks.",
 		Rules: []RuleDef{
 			{ID: "R1", Desc: "registry agreement between AddMatcher/AddUpdater and lookup (T-SIB/T-TABLE)", Run: c20R1},
@@ -84,6 +84,7 @@ func init() {
 			{ID: "R4", Desc: "fallback discipline in Table.interpreterMatch / interpreterUpdate", Run: c20R4},
 			{ID: "R5", Desc: "table name, expression and kind reach the interpreter inputs correctly paired (T-FLOW)", Run: c20R5},
 			{ID: "R6", Desc: "interpreter settings are copied into new tables and propagated to existing ones (T-FLOW)", Run: c20R6},
+			{ID: "R7", Desc: "the native interpreter has no state beyond its four registries: a memo of resolved matchers must be rewritten by every registration (T-FIELD closure)", Run: func(e *Engine) { stateModelClosed(e, "R7", func(k string) bool { return k == "interp.Native" }) }},
 		},
 	})
 }
